@@ -1,6 +1,8 @@
 import OSProofs.Props.C01
 import OSProofs.Props.C04
 import OSProofs.C02Lemmas
+import OSProofs.GammaLemmas
+import Mathlib.Data.List.Forall2
 import Mathlib.Logic.Equiv.Fin.Basic
 
 /-!
@@ -168,12 +170,40 @@ theorem eqv_specOD_comp (K : Kind) (L : Leaves ℝ) (β κ : ℝ) {m n : ℕ} (G
   · have he := hK.resolve_left (fun h => h)
     exact Prod.ext (eqv_TM_ΩP G e β he L κ i) (eqv_TM_ΔP G e β he L κ γ i)
 
-/-- list form: if team `i` of `ts'` has the mu, variance and rank of team `e i` of `ts`, then it
-gets the `(Ω, Δ)` of team `e i` -/
+/-- the gamma callback is called with the same result for the two teams, whatever `c` and the
+number of teams: `gamma(c, n, t.mu, t.σ², t.team, t.rank) = gamma(c, n, t'.mu, t'.σ², t'.team, t'.rank)` -/
+def gam_SameCalls (g : GammaFn ℝ) (t t' : TeamAgg ℝ) : Prop :=
+  ∀ (c : ℝ) (n : ℕ), GammaAt g c n t = GammaAt g c n t'
+
+theorem gam_sameCalls_refl (g : GammaFn ℝ) (t : TeamAgg ℝ) : gam_SameCalls g t t := fun _ _ => rfl
+
+theorem gam_sameCalls_of_eq (g : GammaFn ℝ) {t t' : TeamAgg ℝ} (h : t = t') : gam_SameCalls g t t' :=
+  h ▸ gam_sameCalls_refl g t
+
+/-- a tagged member reads only mu (not even that), variance and rank -/
+theorem gam_sameCalls_tagged {g : GammaFn ℝ} (hg : g.Tagged) {t t' : TeamAgg ℝ}
+    (hs2 : t.sig2 = t'.sig2) (hrk : t.rank = t'.rank) : gam_SameCalls g t t' := by
+  intro c n
+  unfold GammaAt
+  rw [hs2, hrk]
+  exact gam_tagged_mu_team hg c n _ _ _ _ _ _
+
+/-- a callback that does not depend on the order of the players -/
+theorem gam_sameCalls_perm {g : GammaFn ℝ} (hg : GammaPermInv g) {t t' : TeamAgg ℝ}
+    (hmu : t.mu = t'.mu) (hs2 : t.sig2 = t'.sig2) (hrk : t.rank = t'.rank)
+    (hp : t.players.Perm t'.players) : gam_SameCalls g t t' := by
+  intro c n
+  unfold GammaAt
+  rw [hmu, hs2, hrk]
+  exact hg c n _ _ _ _ _ hp
+
+/-- list form: if team `i` of `ts'` has the mu, variance and rank of team `e i` of `ts` (and the gamma
+callback returns the same for both), then it gets the `(Ω, Δ)` of team `e i` -/
 theorem eqv_specOmegaDelta_reindex (K : Kind) (L : Leaves ℝ) (P : Params ℝ)
     (ts ts' : List (TeamAgg ℝ)) (e : Fin ts'.length ≃ Fin ts.length)
     (hmu : ∀ i, ts'[i].mu = ts[e i].mu) (hs2 : ∀ i, ts'[i].sig2 = ts[e i].sig2)
     (hrk : ∀ i, ts'[i].rank = ts[e i].rank)
+    (hgam : ∀ i, gam_SameCalls P.gamma ts'[i] ts[e i])
     (hK : K.eqv_full ∨ ∀ i q : Fin ts'.length, q ∈ nbrs i ↔ e q ∈ nbrs (e i)) (i : Fin ts'.length) :
     specOmegaDelta K L P ts' i = specOmegaDelta K L P ts (e i) := by
   have hlen : ts'.length = ts.length := by simpa using Fintype.card_congr e
@@ -186,8 +216,8 @@ theorem eqv_specOmegaDelta_reindex (K : Kind) (L : Leaves ℝ) (P : Params ℝ)
   have hγ : gammaOf P.gamma ts' = fun c j => gammaOf P.gamma ts c (e j) := by
     funext c j
     unfold gammaOf
-    rw [hmu, hs2, hrk]
-    exact congrArg (fun k => gammaVal P.gamma c k ts[e j].mu ts[e j].sig2 ts[e j].rank) hlen
+    exact (hgam j c ts'.length).trans
+      (congrArg (fun k => GammaAt P.gamma c k ts[e j]) hlen)
   rw [eqv_specOmegaDelta_eq_specOD, eqv_specOmegaDelta_eq_specOD, hG, hγ]
   exact eqv_specOD_comp K L P.beta P.kappa (gameOf ts) (gammaOf P.gamma ts) e hK i
 
@@ -216,6 +246,7 @@ theorem eqv_omegaDelta_reindex (K : Kind) (L : Leaves ℝ) (P : Params ℝ)
     (ts ts' : List (TeamAgg ℝ)) (e : Fin ts'.length ≃ Fin ts.length)
     (hmu : ∀ i, ts'[i].mu = ts[e i].mu) (hs2 : ∀ i, ts'[i].sig2 = ts[e i].sig2)
     (hrk : ∀ i, ts'[i].rank = ts[e i].rank)
+    (hgam : ∀ i, gam_SameCalls P.gamma ts'[i] ts[e i])
     (hK : K.eqv_full ∨ ∀ i q : Fin ts'.length, q ∈ nbrs i ↔ e q ∈ nbrs (e i)) :
     omegaDelta K L P ts'
       = List.ofFn (fun i : Fin ts'.length =>
@@ -224,7 +255,7 @@ theorem eqv_omegaDelta_reindex (K : Kind) (L : Leaves ℝ) (P : Params ℝ)
   congr 1
   funext i
   rw [eqv_omegaDelta_getElem K L P ts (e i).1 (e i).2]
-  exact eqv_specOmegaDelta_reindex K L P ts ts' e hmu hs2 hrk hK i
+  exact eqv_specOmegaDelta_reindex K L P ts ts' e hmu hs2 hrk hgam hK i
 
 /-! ### players within a team in a different order -/
 
@@ -232,7 +263,8 @@ theorem eqv_omegaDelta_reindex (K : Kind) (L : Leaves ℝ) (P : Params ℝ)
 def TeamAgg.eqv_key (t : TeamAgg ℝ) : ℝ × ℝ × ℕ := (t.mu, t.sig2, t.rank)
 
 theorem eqv_omegaDelta_congr (K : Kind) (L : Leaves ℝ) (P : Params ℝ) (ts ts' : List (TeamAgg ℝ))
-    (h : ts.map TeamAgg.eqv_key = ts'.map TeamAgg.eqv_key) :
+    (h : ts.map TeamAgg.eqv_key = ts'.map TeamAgg.eqv_key)
+    (hgam : List.Forall₂ (gam_SameCalls P.gamma) ts ts') :
     omegaDelta K L P ts = omegaDelta K L P ts' := by
   have hlen : ts'.length = ts.length := by simpa using (congrArg List.length h).symm
   have hk : ∀ i : Fin ts'.length, ts'[i].eqv_key = (ts[finCongr hlen i]).eqv_key := by
@@ -242,7 +274,8 @@ theorem eqv_omegaDelta_congr (K : Kind) (L : Leaves ℝ) (P : Params ℝ) (ts ts
     simpa using h1.symm
   rw [eqv_omegaDelta_reindex K L P ts ts' (finCongr hlen)
     (fun i => congrArg (·.1) (hk i)) (fun i => congrArg (·.2.1) (hk i))
-    (fun i => congrArg (·.2.2) (hk i)) (Or.inr (eqv_finCongr_nbrs hlen))]
+    (fun i => congrArg (·.2.2) (hk i))
+    (fun i c n => ((hgam.get (hlen ▸ i.2) i.2) c n).symm) (Or.inr (eqv_finCongr_nbrs hlen))]
   apply List.ext_getElem
   · simp [omegaDelta_length, hlen]
   · intro k h1 h2
@@ -274,6 +307,15 @@ theorem eqv_teamAggs_key {teams teams' : List (List (Rating ℝ))}
   | nil => rfl
   | cons hab _ ih =>
     simp only [List.map_cons, ih, TeamAgg.eqv_key, hab.1, hab.2.1, hab.2.2.1]
+
+/-- the aggregates of two presentations of the rosters get the same gamma calls, for a callback that
+does not depend on the order of the players -/
+theorem gam_teamAggs_sameCalls {g : GammaFn ℝ} (hg : GammaPermInv g)
+    {teams teams' : List (List (Rating ℝ))}
+    (h : List.Forall₂ List.Perm teams teams') (dense : List ℕ) :
+    List.Forall₂ (gam_SameCalls g) (teamAggs teams dense) (teamAggs teams' dense) :=
+  (eqv_teamAggs_forall₂ h dense).imp
+    (fun _ _ hab => gam_sameCalls_perm hg hab.1 hab.2.1 hab.2.2.1 hab.2.2.2)
 
 /-- the per-player update as a map over the roster -/
 theorem eqv_applyTeam_eq (κ : ℝ) (t : TeamAgg ℝ) (ω δ : ℝ) :
